@@ -251,12 +251,27 @@ func (e *Exec) decodeRune(bs []Int) (Int, int) {
 // a metric's lock (a point at which another goroutine's operation on the same
 // metric may run): the harness function verifYieldPoint, if the job has one.
 func (e *Exec) yieldPoint(mu value) {
-	h := e.sh.entry.Pkg.Func("verifYieldPoint")
-	if h == nil || e.cur.id != 0 || !strings.HasSuffix(e.race.names[mutexPtr(mu)], "Metric.RWMutex") {
+	if e.cur.id != 0 {
 		return
 	}
-	e.call(h, nil)
+	name := e.race.names[mutexPtr(mu)]
+	if h := e.sh.entry.Pkg.Func("verifYieldPoint"); h != nil && strings.HasSuffix(name, "Metric.RWMutex") {
+		e.call(h, nil)
+		return
+	}
+	// verifYieldAny: the locks of the runtime and the store (by field name,
+	// which is also how the native rewrite finds the call sites)
+	if h := e.sh.entry.Pkg.Func("verifYieldAny"); h != nil {
+		for _, suf := range yieldAnyLocks {
+			if strings.HasSuffix(name, suf) {
+				e.call(h, nil)
+				return
+			}
+		}
+	}
 }
+
+var yieldAnyLocks = []string{".handleMu", ".programErrorMu", ".insertMu", ".searchMu"}
 
 func init() {
 	dec := func(e *Exec, fn *ssa.Function, args []value) value {
